@@ -9,6 +9,7 @@ import math
 import random
 import sys
 import warnings
+import zlib
 
 import numpy as np
 
@@ -94,12 +95,18 @@ def battery(seed, outp):
                 pass
             return orig(*a, **k)
         setattr(mod, name, logged)
+    # compile the jitted functions DEFINED in this module first: they refer to the kernels as module globals and
+    # could not be typed once those names are rebound to the logging wrappers
+    _S = np.array([[0, 0, 1, 0, 0, 0.0]]).T
+    fhp.IKinSpaceConstrained(_S.copy(), np.eye(4), np.eye(4), np.array([0.1]), 1e-4, 1e-5, np.array([-3.0]), np.array([3.0]), 5)
     for k in KERNELS:
         if hasattr(fhp, k):
             wrap(fhp, k)
 
     def run(name, f):
         caller[0] = name
+        random.seed(zlib.crc32(name.encode()))      # the library draws restarts from `random`: same draws in both executions
+        np.random.seed(zlib.crc32(name.encode()) % (2 ** 31))
         try:
             with contextlib.redirect_stdout(io.StringIO()), warnings.catch_warnings():
                 warnings.simplefilter("ignore")
